@@ -102,6 +102,9 @@ func (e *SpecEnv) lookupPkg(name string) *types.Package {
 
 func (e *SpecEnv) resolveType(s string) types.Type {
 	switch {
+	case s == "byteslice":
+		// the type []byte where only an identifier can be written: typeis(x, byteslice), unbox(x, byteslice) (ext_c09.go)
+		return types.NewSlice(types.Universe.Lookup("byte").Type()) // prints as []byte, like the type assertions in the code (tagOf keys by type string)
 	case strings.HasPrefix(s, "map["):
 		// map[K]V (C05: spec functions over map-typed parameters)
 		d, j := 0, -1
@@ -647,7 +650,7 @@ func (e *SpecEnv) evalBinary(x *EBinary) SV {
 		return SV{t: t, typ: boolT}
 	case "<", "<=", ">", ">=":
 		if tc.sortOfSV(a) == "Str" {
-			e.fail("string ordering unsupported in specs")
+			return SV{t: e.fc.strOrder(x.Op, a.t, b.t), typ: boolT} // ext_strorder.go
 		}
 		return SV{t: app(x.Op, a.t, b.t), typ: boolT}
 	case "+":
@@ -796,6 +799,9 @@ func (e *SpecEnv) evalCall(x *ECall) SV {
 					payload = app(box, v.t)
 				}
 				return SV{t: app("mk-iface", tag, payload), typ: types.NewInterfaceType(nil, nil)}
+			case "unbox":
+				// unbox(x, T): the T value held by interface x (ext_c09.go)
+				return e.specUnbox(e.eval(x.Args[0]), e.resolveType(exprString(x.Args[1])))
 			case "typeis":
 				// typeis(x, T): dynamic type of interface x is T
 				v := e.eval(x.Args[0])
@@ -862,6 +868,11 @@ func (e *SpecEnv) evalCall(x *ECall) SV {
 			case "inblock":
 				// inblock(p, s): pointer p is the address of an element of the backing array of slice s (any index) (ext_crypto.go)
 				return e.inblockBuiltin(x)
+			case "lit":
+				// lit(b0, b1, ...): seq code of a byte-string literal (ext_c07.go)
+				if e.lookupSpecFn(id.Name) == nil {
+					return e.litBuiltin(x)
+				}
 			case "seqpart":
 				// seqpart(a, off, n): the byte string held by the window [off, off+n) of a byte array VALUE or slice (ext_crypto.go)
 				return e.seqpartBuiltin(x)
@@ -1462,6 +1473,10 @@ func (e *SpecEnv) applyRec(sf *SpecFn, n *SpecEnv, args []SV) SV {
 		fc.assumes["rec spec "+sf.Pkg+"."+sf.Name+": defining equation (syntactically well-founded on its last parameter)"] = true
 		if fa := recFrameAxioms(name, comps, hnames, fc.comps, hdecls, decls, argNames, body.t); fa != "" {
 			fc.ufAxioms[name] += "\n" + fa // ext_recframe.go: stores at allocation roots do not change the value
+		}
+		if fa := recElemFrameAxioms(name, comps, hnames, fc.comps, hdecls, decls, argNames, body.t); fa != "" {
+			fc.ufAxioms[name] += "\n" + fa // ext_c07.go: stores outside the element cells of a slice parameter do not change the value
+			fc.assumes["rec spec "+sf.Pkg+"."+sf.Name+": element frame theorem (stores outside the elements of its slice parameter), by induction on its last parameter"] = true
 		}
 		e.extRecLimitEnd(sf, name, strings.Join(append(hdecls, decls...), " "), call)
 		e.extRecFrame(sf, n, name, comps, fc.tc.sortOf(ret))
